@@ -470,6 +470,24 @@ class ConnGen:
                 return m
         return dict(sent=self.sent(d.chance(0.5)), iface=iface, id=oid, name=d.choice(['future_request', 'set_v99_thing', 'new', 'frob']), args=extra)
 
+    def step_dead_creates(self, d):
+        """a message on an object whose delete_id has already gone by (libwayland logs the display queue first: queued events show
+        up after the delete_id of their object) that creates an object"""
+        P = protocols()
+        pool = sorted(i for i in self.dead if i > 2 and i not in self.live)
+        if not pool:
+            return None
+        oid = d.choice(pool)
+        iface = self.dead[oid]
+        is_event = d.chance(0.7)
+        i = self.alloc_server(d) if is_event else self.alloc_client(d)
+        if i == oid:
+            return None
+        t = d.choice(['my_child', 'wl_buffer', 'wl_callback'])
+        self._born(i, t)
+        name = d.choice(['future_request', 'set_v99_thing', 'frob']) if iface in P else d.choice(FREE_NAMES)
+        return dict(sent=self.sent(is_event), iface=iface, id=oid, name=name, args=[['new', t, i]] + ([['uint', d.int(0, 9)]] if d.chance(0.4) else []))
+
     def step_long_line(self, d):
         """a message whose printed line is longer than 4096 characters (a long title, namespace or text; the wire limit is on the
         message, not on its print-out), half of the time one that also creates an object - preferably on an id used before"""
@@ -694,6 +712,7 @@ class ConnGen:
         elif kind == 'repeat': m = self.step_repeat(d)
         elif kind == 'midsession': m = self.step_midsession(d)
         elif kind == 'long_line': m = self.step_long_line(d)
+        elif kind == 'dead_creates': m = self.step_dead_creates(d)
         elif kind == 'foreign': m = self.step_foreign(d)
         elif kind == 'appid': m = self.step_appid(d)
         elif kind == 'arrays': m = self.step_arrays(d)
